@@ -43,11 +43,26 @@ impl CharacterCategory {
 //@extract sudachi/src/dic/grammar.rs :: struct Grammar
 //@end
 
-/// what the bytes from `offset` denote (ASSUMED nom contract)
-pub uninterp spec fn sp_pos_table(b: Seq<u8>, offset: int) -> Seq<Seq<Seq<char>>>;
+/// what the bytes from `offset` denote: CONCRETE since session 5 - the table `dec_pos_table` reads (specs/pos_table_rd.rs.inc: a u16 count, then
+/// count x 6 length-prefixed UTF-16 strings), the same definition v_pos::theorem_pos_table_roundtrip proves the WRITER's bytes decode under.
+/// That the nom combinators of grammar_parser compute it stays the ASSUMED contract of grammar_parser_w below.
+//@include common/wordid_stub_min.rs.inc
+//@include specs/wi_format_cursor.rs.inc
+//@include specs/pos_table_rd.rs.inc
+#[verifier::opaque]
+spec fn sp_pos_table(b: Seq<u8>, offset: int) -> Seq<Seq<Seq<char>>> {
+    match dec_pos_table(b.subrange(offset, b.len() as int)) { Some((_, t)) => t, None => Seq::empty() }
+}
 /// number of bytes of the table (count field and strings)
-pub uninterp spec fn sp_pos_bytes(b: Seq<u8>, offset: int) -> int;
-pub uninterp spec fn le_i16_at(b: Seq<u8>, off: int) -> i16;
+#[verifier::opaque]
+spec fn sp_pos_bytes(b: Seq<u8>, offset: int) -> int {
+    match dec_pos_table(b.subrange(offset, b.len() as int)) { Some((r, _)) => b.len() - offset - r.len(), None => 0 }
+}
+/// the little-endian i16 at a position: CONCRETE since session 5 (the same `i16_of` as on the writer side, common/build_prelude.rs.inc:
+/// v_connrd::theorem_dims_roundtrip / theorem_cell_roundtrip)
+pub open spec fn i16_of(b0: u8, b1: u8) -> i16 { ((b0 as u16) | ((b1 as u16) << 8)) as i16 }
+#[verifier::opaque]
+pub open spec fn le_i16_at(b: Seq<u8>, off: int) -> i16 { i16_of(b[off], b[off + 1]) }
 spec fn table_of(p: Vec<Vec<String>>) -> Seq<Seq<Seq<char>>> { Seq::new(p@.len(), |i: int| Seq::new(p@[i]@.len(), |k: int| p@[i]@[k]@)) }
 /// position of the first matrix byte: behind the table and the two dimensions
 spec fn off_matrix(b: Seq<u8>, offset: int) -> int { offset + sp_pos_bytes(b, offset) + 4 }
